@@ -92,6 +92,25 @@ def mvccStep (d : Db) (line : String) : Db × String :=
         | .conflict => "conflict"
         | .err s => s)
     | _, _ => (d, "bad-op")
+  -- several commits issued while the write pipeline is parked and then written by one
+  -- writeRequests call: timestamps and conflict checks happen at issue time, in this order, so the
+  -- sequential model applies them one after the other
+  | "batchcommit" :: items =>
+    let (d, outs) := items.foldl (fun (acc : Db × List String) (w : String) =>
+      let (d, outs) := acc
+      match w.splitOn ":" with
+      | [id, cts] =>
+        match id.toNat?, cts.toNat? with
+        | some id, some cts =>
+          let (d, r) := d.commit id cts
+          (d, outs ++ [match r with
+            | .ok ts => s!"ok {ts}"
+            | .noop => "ok noop"
+            | .conflict => "conflict"
+            | .err s => s])
+        | _, _ => (d, outs ++ ["bad-op"])
+      | _ => (d, outs ++ ["bad-op"])) (d, [])
+    (d, String.intercalate ";" outs)
   | ["discard", id] =>
     match id.toNat? with
     | some id => (d.discardTxn id, "ok")
